@@ -42,6 +42,8 @@ def stress_specs(rng):
             if a != b and rng.random() < 0.6:
                 out.append((T + f'Whenever {a}, whenever {b}, then we must have a fired with id 1.\n', [], 'two-tel-head'))
                 out.append((T + f'It is prohibited that {a}, whenever {b}.\n', [], 'two-tel-constraint'))
+    for a in conds[:3]:
+        out.append((T + f'Whenever {a}, whenever {a}, then we must have a fired with id 1.\n', [], 'two-tel-head/repeated'))
     S = 'A person is identified by a name, and has a city.\n'
     for v in ('"new york"', '"a b c"', 'rome', 'Rome', 'r2d2', '"x_y 1"'):
         out.append((S + f'There is a person with name equal to anna, with city equal to {v}.\n'
@@ -370,6 +372,11 @@ def random_encoding(rng):
         for _ in range(rng.choice([0, 1, 2, 2, 3, 4])):
             r = rng.random()
             out.append(atom() if r < 0.55 else comparison() if r < 0.8 else tel())
+        if out and rng.random() < 0.12:
+            # the same condition written twice (a second, equal object)
+            import copy
+            k = rng.randrange(len(out))
+            out.insert(rng.randrange(len(out) + 1), copy.deepcopy(out[k]))
         return ASPConjunction(out)
 
     enc = ASPEncoding()
